@@ -477,23 +477,6 @@ Theorem register_tables_agree :
   map fst reg_names_insns = reg_names_parser /\ reg_names_parser = reg_names_types.
 Proof. split; vm_compute; reflexivity. Qed.
 
-(* ------------------------------------------------------------------ grouping *)
-Section EvalLaws.
-Variable env : str -> res Z.
-Variable dot : res Z.
-Variable un : N -> Z -> res Z.
-Variable bin : N -> Z -> Z -> res Z.
-
-Theorem eval_regroup f e : eval env dot un bin (regroup f e) = eval env dot un bin e.
-Proof. induction e; simpl; rewrite ?IHe, ?IHe1, ?IHe2; reflexivity. Qed.
-
-Theorem eval_ungroup e : eval env dot un bin (ungroup e) = eval env dot un bin e.
-Proof. induction e; simpl; rewrite ?IHe, ?IHe1, ?IHe2; reflexivity. Qed.
-
-Theorem eval_group br e : eval env dot un bin (EGroup br e) = eval env dot un bin e.
-Proof. reflexivity. Qed.
-End EvalLaws.
-
 (* ------------------------------------------------------------------ operands *)
 Section OperandLaws.
 Variable low : str -> str.
@@ -535,15 +518,6 @@ Qed.
 Theorem pattern_case_irrelevant mask m : pattern_of (recase mask m) = pattern_of m.
 Proof. unfold pattern_of, getitem. rewrite ascii_lower_str_recase. reflexivity. Qed.
 
-(* ------------------------------------------------------------------ word lists *)
-Theorem word_list_same gai16 odd vals : vals <> [] ->
-  emit_word_list gai16 odd vals = emit_word_directive gai16 odd vals.
-Proof.
-  intros Hne. unfold emit_word_list, emit_word_directive.
-  destruct (mapM gai16 vals) as [ws| | |] eqn:E; simpl; try reflexivity.
-  destruct ws; [|reflexivity]. apply mapM_length in E. destruct vals; [contradiction | discriminate].
-Qed.
-
 (* ------------------------------------------------------------------ conjunctions used by Props/C10.v *)
 Lemma cidict_wellformed (V : Type) (low : str -> str) :
   wf V low [] /\ (forall k v d, wf V low d -> wf V low (set low k v d)) /\ (forall l, wf V low (of_items low l))
@@ -560,8 +534,3 @@ Lemma register_case_both :
      try_as_register low (RSym a lbl) = try_as_register low (RSym b lbl) /\ try_accumulator low (RSym a lbl) = try_accumulator low (RSym b lbl)) /\
   (forall mask name lbl, try_as_register ascii_lower_str (RSym (recase mask name) lbl) = try_as_register ascii_lower_str (RSym name lbl)).
 Proof. exact (conj register_case_irrelevant register_recase). Qed.
-
-Lemma grouping_both env dot un bin :
-  (forall f e, eval env dot un bin (regroup f e) = eval env dot un bin e) /\
-  (forall e, eval env dot un bin (ungroup e) = eval env dot un bin e).
-Proof. exact (conj (eval_regroup env dot un bin) (eval_ungroup env dot un bin)). Qed.
